@@ -81,7 +81,11 @@ def build_component(comp, workdir):
     else:
         src_tu = src
     try:
-        text, meta = cxx2c.extract(src_tu, [os.path.join(REPO, 'include'), REPO], DEFS, comp.symbolic, extra)
+        defs = list(DEFS)
+        for ed in getattr(comp, 'extract_defines', []):
+            # a component may fix a build-time constant to a concrete value (bounded stand-ins with a concrete capacity)
+            defs = [d for d in defs if d.split('=')[0] != ed.split('=')[0]] + [ed]
+        text, meta = cxx2c.extract(src_tu, [os.path.join(REPO, 'include'), REPO], defs, comp.symbolic, extra)
     except cxx2c.ExtractError as ex:
         raise Infra('extraction of %s failed: %s' % (comp.source, ex))
     raw_text = text
